@@ -54,6 +54,7 @@ class JWTBearerTokenValidator(BearerTokenValidator):
             )
             claims.validate()
             return claims
-        except JoseError as error:
+        except (JoseError, ValueError) as error:
+            # ValueError: the key does not fit the algorithm of the token
             logger.debug("Authenticate token failed. %r", error)
             return None
